@@ -99,10 +99,25 @@ func pbSites(msg []pbField, repeated map[int]bool) []pbSite {
 }
 
 // pbMutate applies op at the site; returns envelopes (wire bytes) named by variant.
+type pbVariant struct {
+	name string
+	msg  []pbField
+}
+
 func pbMutate(envNum int, msg []pbField, s pbSite, op string) []concrete {
+	var trees []pbVariant
+	out := pbMutateTree(envNum, msg, s, op, &trees)
+	for _, t := range trees {
+		out = append(out, concrete{s.desc + ":" + op + "/" + t.name, pbEncode([]pbField{{num: envNum, kind: 'm', sub: t.msg}})})
+	}
+	return out
+}
+
+// pbMutateTree collects tree level variants in trees and returns byte level variants (truncation).
+func pbMutateTree(envNum int, msg []pbField, s pbSite, op string, trees *[]pbVariant) []concrete {
 	var out []concrete
 	emit := func(name string, m []pbField) {
-		out = append(out, concrete{s.desc + ":" + op + "/" + name, pbEncode([]pbField{{num: envNum, kind: 'm', sub: m}})})
+		*trees = append(*trees, pbVariant{name, m})
 	}
 	with := func(name string, f func(parent *[]pbField, i int)) {
 		m := pbClone(msg)
@@ -384,7 +399,7 @@ func (e *v2env) digest() string {
 				}
 			}
 		}
-		out += fmt.Sprintf("foreign=%v,badpayloads=%d,conv=%d;", foreign, pc, 0)
+		out += fmt.Sprintf("foreign=%v,badpayloads=%d;", foreign, pc)
 	}
 	return out
 }
@@ -773,6 +788,42 @@ func registerV2(w *world, needed map[string]bool) {
 			gen: func(op, pos string, level int, rnd *rand.Rand) []concrete {
 				e := get()
 				var out []concrete
+				if op == "random" {
+					// stacks of 1-3 random field mutations
+					n := 60
+					if level > 0 {
+						n = 600
+					}
+					ops := []string{"missing", "empty", "extreme-number", "duplicate", "type-string", "type-number"}
+					valid := m.valid(e)
+					for k := 0; k < n; k++ {
+						cur := pbClone(valid[rnd.Intn(len(valid))])
+						desc := ""
+						for j := 0; j < 1+rnd.Intn(3); j++ {
+							ss := pbSites(cur, m.repeated)
+							if len(ss) == 0 {
+								break
+							}
+							st := ss[rnd.Intn(len(ss))]
+							o := ops[rnd.Intn(len(ops))]
+							var trees []pbVariant
+							pbMutateTree(m.envNum, cur, st, o, &trees)
+							if len(trees) == 0 {
+								continue
+							}
+							tv := trees[rnd.Intn(len(trees))]
+							if len(pbEncode(tv.msg)) > 1<<18 {
+								continue
+							}
+							cur = tv.msg
+							desc += "+" + st.desc + ":" + o + "/" + tv.name
+						}
+						if desc != "" {
+							out = append(out, concrete{"random:" + desc[1:], wrap(m.envNum, cur)})
+						}
+					}
+					return out
+				}
 				if op == "unusual" {
 					out = append(out, m.unusual(e, pos, rnd)...)
 					if pos == "top" {
